@@ -55,12 +55,12 @@ def main():
             for sc in tuple(direct) + tuple({'scalar:a': '1', 'scalar:b': '1', 'scalar:c': '1', 'feat:lead': str(l_), 'feat:trail': str(t_)} for l_, t_ in feats) + ({'scalar:a': '1', 'scalar:b': '1', 'scalar:c': '1'}, {'scalar:a': '2', 'scalar:b': '3', 'scalar:c': '5'},
                        {'scalar:a': '1', 'scalar:b': '123456789', 'scalar:c': '2'}, {'scalar:a': '987654321987654321', 'scalar:b': '5', 'scalar:c': '1'}):
                 failed, panicked, out = driver.replay_native('prover', 'prover', HARNESS, e, sc)
-                if (r.status == 'assert' and msg in failed) or (r.status == 'panic' and panicked):
-                    hit = (sc, out)
+                if (r.status == 'assert' and failed) or (r.status == 'panic' and panicked):      # any assertion of the harness failing on the real build is a violation of the property
+                    hit = (sc, out, failed or ['panic'])
                     break
             if hit:
                 draws = driver.model_draws(r.state, r.info['model']) if r.status == 'assert' else {}
-                run.violation('%s: %s -- reproduced natively on a real proof (%s)' % (e, msg, ', '.join('%s=%s' % (k, v if len(str(v)) < 24 else str(v)[:20] + '...') for k, v in sorted(hit[0].items()))),
+                run.violation('%s: %s -- reproduced natively on a real proof (%s)' % (e, msg if msg in hit[2] else '%s [natively: %s]' % (msg, hit[2][0]), ', '.join('%s=%s' % (k, v if len(str(v)) < 24 else str(v)[:20] + '...') for k, v in sorted(hit[0].items()))),
                               {'harness': e, 'assertion': msg, 'symbolic_counterexample_coordinates': draws, 'native_scalars': hit[0], 'native_output_tail': hit[1][-1200:]}, key='C10:' + msg[:50])
             else:
                 run.inconclusive.append('%s: "%s" failed symbolically but not on the native sample proofs' % (e, msg[:80]))
